@@ -13,17 +13,11 @@ class ShapeError(Exception):
     pass
 
 
-INDEX_NAMES = {}
-INDEX_EXPRS = {}
-
-
-def intern_index(x: Expr) -> str:
-    """stable pseudo index variable '@k' for a data-dependent index expression"""
-    if x not in INDEX_NAMES:
-        name = f"@{len(INDEX_NAMES) + 1}"
-        INDEX_NAMES[x] = name
-        INDEX_EXPRS[name] = x
-    return INDEX_NAMES[x]
+# stable pseudo index variables '@k' for data-dependent index expressions: the table lives in sym (free_ivars and subst_ivar look
+# through the names)
+INDEX_NAMES = sym.INDEX_NAMES
+INDEX_EXPRS = sym.INDEX_EXPRS
+intern_index = sym.intern_index
 
 
 def to_arr(v: Val) -> Optional[Val]:
@@ -503,7 +497,14 @@ def index(v: Val, idx: list, interp=None) -> Val:
                         pass
                 nsp = rng(size) if not sym.equal(size, sp.size) else sp
                 if not sym.equal(size, sp.size):
-                    nsp = Space(("slice", sp.key, lo_e, hi_e), size, None, sp)
+                    if lo_e[0] == "num" and float(lo_e[1]).is_integer() and lo_e[1] != 0:
+                        # a constant start other than 0: the element carries the offset (position k of the slice is entry
+                        # k + start) and the positions are counted from 0 — a plain range of the slice's length.  (A slice
+                        # space keeps the PARENT's numbering; it is for starts that are 0 or symbolic, whose element is
+                        # not shifted.)
+                        nsp = rng(size)
+                    else:
+                        nsp = Space(("slice", sp.key, lo_e, hi_e), size, None, sp)
                     if size[0] == "num" and float(size[1]).is_integer() and 0 <= size[1] <= 16:
                         nsp = fix(int(size[1]))
                 axes.append((nsp, nv))
